@@ -132,7 +132,7 @@ def run_case(spec):
                 paused_pings[0] += 1
             on_ping_gate()
         if quota["on"]:
-            tot = sum(e.rx_total for l in dp.l2_links() for e in l.ends)
+            tot = sum(e.rx_total for l in dp.l2_links() for e in l.ends if dp.party_of(unwrap(e.protocol)) != dp.leader())
             if tot != quota["seen"]:
                 quota["seen"] = tot
                 quota["n"] -= 1
@@ -150,8 +150,10 @@ def run_case(spec):
             t = a[2][2]
             if gate["link"] is not None and r.seconds() < gate["until"] and t.link is gate["link"]:
                 return False
-            # bandwidth limit (bulk cases): one delivery on an L2 link per dt of virtual time
-            if quota["on"] and a[0] == "data" and quota["n"] <= 0 and t.link in dp.l2_links():
+            # bandwidth limit (bulk cases): one delivery per dt of virtual time in the direction of the bulk data
+            # (Leader -> Follower); the return path stays free, so a pong is never stuck behind this throttle
+            if quota["on"] and a[0] == "data" and quota["n"] <= 0 and t.link in dp.l2_links() and \
+                    dp.party_of(unwrap(t.protocol)) != dp.leader():
                 return False
         return True
     sch.filter = filt
